@@ -10,8 +10,14 @@
    Outside the model (and therefore not covered by these theorems): TOML decoding by go-toml
    (unknown keys, wrong types, syntax) and "never panics" of the real parser -- both are only
    tested by the driver (C02 is partial in that clause). *)
-From CR Require Import Model.Config Model.ConfigSpec Model.ConfigWf
-  Proofs.Config Proofs.ConfigPlugins Proofs.ConfigIface Proofs.ConfigSpec Proofs.ConfigWf.
+From CR Require Import Model.Config.
+From CR Require Import Model.ConfigSpec.
+From CR Require Import Model.ConfigWf.
+From CR Require Import Proofs.Config.
+From CR Require Import Proofs.ConfigPlugins.
+From CR Require Import Proofs.ConfigIface.
+From CR Require Import Proofs.ConfigSpec.
+From CR Require Import Proofs.ConfigWf.
 Local Open Scope Z_scope.
 
 (* accepted exactly when the documented constraints hold -- for every lexed document, of any size *)
